@@ -6,7 +6,7 @@ from typing import List, Optional, Set
 
 from fdlstatic import cfg as cfg_lib
 from fdlstatic.ctx import Ctx, kwarg
-from fdlstatic.model import AnalysisError, FuncInfo, unparse, walk_function, walk_stmts
+from fdlstatic.model import AnalysisError, FuncInfo, norm_text, unparse, walk_function, walk_stmts
 from fdlstatic import noneness, roles
 from fdlstatic.report import RuleSet
 from fdlstatic.rules import c14
@@ -240,6 +240,138 @@ def run(ctx: Ctx, rs: RuleSet, tier: str):
                  'repr of a non-finite value (inf, -inf, nan) is a name, not '
                  'a literal: the emitted expression raises NameError or '
                  'picks up an unrelated variable'), ctx.loc(f, f.node))
+
+  # ---- names emitted as builtins are builtins
+  import builtins as _builtins
+  rule = 'LIT.builtin-reference'
+  rs.declare(rule, 'a name emitted as a BuiltinReference (no import) is a '
+             'Python builtin', 3)
+  for modname in sorted(ctx.p.modules):
+    if not modname.startswith(CG + '.') or modname.endswith('_test'):
+      continue
+    mod = ctx.mod(modname)
+    for f in mod.all_funcs:
+      seen_names = {}
+      for c in ctx.calls(f):
+        if not (unparse(c.func).endswith('BuiltinReference') and c.args):
+          continue
+        a = c.args[0]
+        inner = a.args[0] if isinstance(a, ast.Call) and a.args else a
+        names = []
+        if isinstance(inner, ast.Constant) and isinstance(inner.value, str):
+          names = [inner.value]
+        elif isinstance(inner, ast.IfExp):
+          names = [x.value for x in (inner.body, inner.orelse)
+                   if isinstance(x, ast.Constant)]
+        elif isinstance(inner, ast.Subscript) and isinstance(
+            inner.value, ast.Name) and isinstance(
+                mod.assigns.get(inner.value.id), ast.Dict):
+          names = [v.value for v in mod.assigns[inner.value.id].values
+                   if isinstance(v, ast.Constant)]
+        else:
+          continue  # a name computed elsewhere (e.g. from a real builtin)
+        for nm in names:
+          k = seen_names.get(nm, 0)
+          seen_names[nm] = k + 1
+          ok = hasattr(_builtins, nm)
+          rs.check(ok, rule, f'{f.qualname}:{nm}#{k}',
+                   f'`{nm}` is a builtin' if ok else
+                   f'`{nm}` is emitted as a bare name without an import but '
+                   'is not a builtin: the generated module raises NameError '
+                   f'when the annotation is evaluated (`-> dict[str, {nm}]`)',
+                   ctx.loc(f, c))
+
+  # ---- number tokens are unsigned: signed parts need another form
+  rule = 'LIT.signed-literal'
+  rs.declare(rule, 'cst.Float / cst.Imaginary tokens are built from repr() '
+             'only for parts whose sign bit is clear', 1)
+  n_tok = 0
+  for f, matchers in convs:
+    gtok = ctx.cfg(f)
+    for n in gtok.nodes():
+      toks = [e for e in cfg_lib.walk_node(gtok, n) if isinstance(e, ast.Call)
+              and unparse(e.func) in ('cst.Float', 'cst.Imaginary',
+                                      'cst.Integer') and any(
+                  isinstance(x, ast.Call) and isinstance(x.func, ast.Name) and
+                  x.func.id == 'repr' for a in e.args for x in ast.walk(a))]
+      for tk in toks:
+        n_tok += 1
+        parts = {x.attr for a in tk.args for x in ast.walk(a)
+                 if isinstance(x, ast.Attribute) and x.attr in ('real', 'imag')}
+        if not parts:
+          parts = {'real', 'imag'} if 'complex' in matchers else set()
+        # every path to the token passes the false branch of a sign test on
+        # each part it prints
+        guarded = set()
+        for m in gtok.nodes():
+          if gtok.kind[m] != 'if':
+            continue
+          t = gtok.stmt[m].test
+          tested = {x.attr for c in ast.walk(t) if (
+              (isinstance(c, ast.Call) and unparse(c.func).endswith('copysign'))
+              or (isinstance(c, ast.Compare) and isinstance(
+                  c.ops[0], (ast.Lt, ast.GtE)))) for x in ast.walk(c)
+                    if isinstance(x, ast.Attribute) and x.attr in (
+                        'real', 'imag')}
+          if tested and gtok.dominated_by(n, {m}, labels=cfg_lib.NO_EXC) and (
+              n not in gtok.reach([x for x, lab in gtok.succ[m]
+                                   if lab == 'true'], blocked={m},
+                                  labels=cfg_lib.NO_EXC)):
+            guarded |= tested
+        ok = parts <= guarded
+        rs.check(ok, rule, f'{f.qualname}:`{norm_text(f, tk, 50)}`',
+                 f'reached only when the sign bit of {sorted(parts)} is clear'
+                 if ok else
+                 f'`{unparse(tk)[:60]}` builds a number token from repr() of '
+                 f'a part ({sorted(parts - guarded)}) that may be negative or '
+                 '-0.0: libcst rejects the token (1.5-2j, complex(-0.0, 1.0) '
+                 'cannot be emitted although complex is a supported type)',
+                 ctx.loc(f, tk))
+  if n_tok == 0:
+    raise AnalysisError('no cst.Float / cst.Imaginary token built from repr()')
+
+  # ---- container literals are emitted for exact builtin types only
+  rule = 'TYPE.exact-container-literal'
+  rs.declare(rule, 'the expression emitter writes a list / tuple / dict '
+             'display only for values whose type is exactly that builtin '
+             '(subclasses such as NamedTuple, OrderedDict, defaultdict are '
+             'rejected, not emitted as the plain container)', 2)
+  em = ctx.func(f'{AC}.ir_to_cst.code_for_expr.traverse')
+  vp_ = em.params[0]
+  BUILTIN = {'list', 'tuple', 'dict', 'set', 'frozenset'}
+  chain = None
+  for n in em.node.body:
+    if isinstance(n, ast.If):
+      chain = n
+  sites = 0
+  while chain is not None:
+    emits = [c for st in chain.body for c in ast.walk(st)
+             if isinstance(c, ast.Attribute) and isinstance(
+                 c.value, ast.Name) and c.value.id == 'cst' and c.attr in (
+                     'List', 'Tuple', 'Dict', 'Set')]
+    if emits:
+      sites += 1
+      t = chain.test
+      loose = [c for c in ast.walk(t) if isinstance(c, ast.Call) and unparse(
+          c.func) == 'isinstance' and len(c.args) == 2 and unparse(
+              c.args[0]) == vp_ and ({unparse(x) for x in (
+                  c.args[1].elts if isinstance(c.args[1], ast.Tuple)
+                  else [c.args[1]])} & BUILTIN)]
+      exact = any(isinstance(c, ast.Compare) and unparse(c.left) == (
+          f'type({vp_})') and isinstance(c.ops[0], (ast.Is, ast.In, ast.Eq))
+                  for c in ast.walk(t))
+      ok = exact and not loose
+      rs.check(ok, rule, f'{em.qualname}:`{unparse(t)[:50]}`',
+               'exact type test' if ok else
+               f'`{unparse(t)[:60]}` also admits subclasses of the builtin '
+               'container: a NamedTuple argument is emitted as a plain tuple '
+               'and an OrderedDict / defaultdict as a plain dict - the '
+               'generated module runs but yields a value of another type',
+               ctx.loc(em, chain))
+    chain = chain.orelse[0] if len(chain.orelse) == 1 and isinstance(
+        chain.orelse[0], ast.If) else None
+  if sites < 2:
+    raise AnalysisError(f'{em.qualname}: container display branches not found')
 
   # ---- slice(...) expressions: exact for every None-ness of start/stop/step
   rule = 'LIT.slice-arguments'
